@@ -34,12 +34,17 @@ def make_experiments(rng, comp, n, online, stated_mode, mixed_units):
             ea = rng.choice([None, rng.uniform(-60000.0, 120000.0)])
         units = rng.choice([KG, "SI", "GPU"]) if mixed_units else unit_all
         perm = pv.Permeance(value=p, units=KG).convert(units, comp)
-        exps.append(pv.IdealExperiment(name="e%d" % k, temperature=t, component=comp, permeance=perm,
-                                       activation_energy=ea))
+        e = pv.IdealExperiment(name="e%d" % k, temperature=t, component=comp, permeance=perm, activation_energy=ea)
+        # what was SUPPLIED (not what the object holds after construction): the specification is told the inputs
+        e._verif_supplied = {"T": F(t), "P": F(perm.convert(KG, comp).value), "hasEa": ea is not None, "Ea": F(ea or 0.0)}
+        exps.append(e)
     return exps, ea_true
 
 
 def exp_desc(e, comp):
+    sup = getattr(e, "_verif_supplied", None)
+    if sup is not None:
+        return dict(sup)
     return {"T": F(e.temperature), "P": F(e.permeance.convert(KG, comp).value),
             "hasEa": e.activation_energy is not None, "Ea": F(e.activation_energy or 0.0)}
 
